@@ -451,8 +451,8 @@ PROPS['C19'] = dict(
         'whether raw bytes are a well-formed envelope is decided by the harness with proto.Unmarshal (the property words '
         'it as "undecodable bytes")',
         'Go testing/synctest quiescence for the channel and single-instance HTTP scenarios; the websocket and HTTP '
-        'loopback scenarios run in real time: an operation counts as pending after the harness has waited 2.5 s (ctx '
-        'cases) / 20 s (deliveries) for it',
+        'loopback scenarios run in real time: an operation counts as pending after the harness has waited 10 s (ctx '
+        'cases) / 60 s (deliveries) for it',
         'the websocket connection handed to NewGoatOverWebsocket has its read limit lifted (coder/websocket defaults to '
         '32 KiB per message); a context that ends during a websocket Read / Write may close that connection (documented '
         'coder/websocket behaviour), so later failures on it are accepted',
